@@ -7,6 +7,10 @@ package main
 // a session that redialled from a new local port has a new default id and must not stay
 // listed under the old one - and after the last Close it is empty. (Health() is not used: for
 // a session that can redial it also answers true in passive-closed.)
+// Round 5: the PostDial hook of a REDIAL can be made to fail (veto: a non-OK status or a panic,
+// allow: back to nil); a session whose last redial hook did not return OK must not be in status
+// ok nor in the index (oracle hooks) - it ends in redial-failed after RedialTimes attempts, and a
+// later call tries again.
 
 import (
 	"fmt"
@@ -31,18 +35,34 @@ type rsess struct {
 // session has moved to a new connection" must not be read off the local port, which the OS may
 // hand out again at once.
 type redialCount struct {
-	mu sync.Mutex
-	n  map[interface{}]int
+	mu     sync.Mutex
+	n      map[interface{}]int
+	veto   hookOut                 // what PostDial does on a redial (kind "" or "ok" = nil)
+	failed map[interface{}]hookOut // sessions whose last redial hook did not return OK, and what it did
 }
 
 func (c *redialCount) Name() string { return "c07redial" }
 func (c *redialCount) PostDial(s erpc.PreSession, isRedial bool) *erpc.Status {
 	if isRedial {
+		k := interface{}(s.(erpc.Session))
 		c.mu.Lock()
-		c.n[interface{}(s.(erpc.Session))]++
+		v := c.veto
+		if v.kind == "" || v.isOK() {
+			c.n[k]++
+			delete(c.failed, k)
+		} else {
+			c.failed[k] = v
+		}
 		c.mu.Unlock()
+		return v.act()
 	}
 	return nil
+}
+func (c *redialCount) lastFailed(s erpc.Session) (hookOut, bool) {
+	c.mu.Lock()
+	defer c.mu.Unlock()
+	v, ok := c.failed[interface{}(s)]
+	return v, ok
 }
 func (c *redialCount) of(s erpc.Session) int {
 	c.mu.Lock()
@@ -79,6 +99,9 @@ func (w *rworld) settle(cutAddrs map[*rsess]int) bool {
 			if rstatus(r.s) != "ok" {
 				return false
 			}
+			if _, bad := w.rc.lastFailed(r.s); bad {
+				continue // ok although its redial hook failed: nothing to wait for, checkIndex reports it
+			}
 			if old, was := cutAddrs[r]; was && w.rc.of(r.s) == old {
 				return false
 			}
@@ -97,6 +120,17 @@ func (w *rworld) settle(cutAddrs map[*rsess]int) bool {
 }
 
 func (w *rworld) checkIndex(st *Stats, idx int, after, human string) {
+	for i, r := range w.ss {
+		if v, bad := w.rc.lastFailed(r.s); bad {
+			st.Count("vetoed-redial:session-" + rstatus(r.s))
+			if rstatus(r.s) == "ok" {
+				st.Fail(idx, "hooks", fmt.Sprintf("after %s: session %d is in status ok although the PostDial hook of its last redial %s", after, i, v), human)
+			}
+			if g, ok := w.cli.GetSession(r.s.ID()); ok && g == r.s {
+				st.Fail(idx, "hooks", fmt.Sprintf("after %s: session %d is in the index although the PostDial hook of its last redial %s", after, i, v), human)
+			}
+		}
+	}
 	live := map[string]*rsess{}
 	for _, r := range w.ss {
 		if rstatus(r.s) == "ok" {
@@ -142,7 +176,7 @@ func (w *rworld) checkIndex(st *Stats, idx int, after, human string) {
 
 func runRedialCase(st *Stats, idx int, script []string) {
 	human := strings.Join(script, " ")
-	w := &rworld{rc: &redialCount{n: map[interface{}]int{}}}
+	w := &rworld{rc: &redialCount{n: map[interface{}]int{}, failed: map[interface{}]hookOut{}}}
 	w.srv = erpc.NewPeer(erpc.PeerConfig{})
 	w.cli = erpc.NewPeer(erpc.PeerConfig{RedialTimes: 3, RedialInterval: 10 * time.Millisecond}, w.rc)
 	w.srv.RouteCall(new(T))
@@ -203,6 +237,18 @@ func runRedialCase(st *Stats, idx int, script []string) {
 				})
 				cutAddrs = map[*rsess]int{}
 			}
+		case "veto":
+			v := hookOut{kind: "stat", code: failCodes[k%len(failCodes)]}
+			if k >= 100 {
+				v = hookOut{kind: "panic", pk: panicKinds[k%len(panicKinds)]}
+			}
+			w.rc.mu.Lock()
+			w.rc.veto = v
+			w.rc.mu.Unlock()
+		case "allow":
+			w.rc.mu.Lock()
+			w.rc.veto = hookOut{}
+			w.rc.mu.Unlock()
 		case "setid":
 			if pick != nil && rstatus(pick.s) == "ok" {
 				id := fmt.Sprintf("custom-%d", k%3) // may collide with another session's id: a take-over
@@ -256,6 +302,8 @@ func redialScripts(cfg *RunCfg) [][]string {
 		{"dial", "cut", "down"},
 		{"dial", "dial", "setid:1", "down"},
 		{"dial", "cut", "setid:0", "cut", "close:0"},
+		{"dial", "veto:100", "cut", "call:0", "allow", "call:0", "cut"},
+		{"dial", "dial", "veto:3", "cut", "allow", "call:1", "close:0"},
 	}
 	r := cfg.Rng
 	for len(scripts) < cfg.N {
@@ -271,8 +319,12 @@ func redialScripts(cfg *RunCfg) [][]string {
 				s = append(s, fmt.Sprintf("setid:%d", r.Intn(6)))
 			case k < 75:
 				s = append(s, fmt.Sprintf("close:%d", r.Intn(3)))
-			case k < 92:
+			case k < 88:
 				s = append(s, fmt.Sprintf("call:%d", r.Intn(3)))
+			case k < 93:
+				s = append(s, fmt.Sprintf("veto:%d", r.Intn(2)*100+r.Intn(40)), "cut")
+			case k < 96:
+				s = append(s, "allow")
 			default:
 				s = append(s, "down")
 			}
@@ -284,7 +336,7 @@ func redialScripts(cfg *RunCfg) [][]string {
 
 func runRedial(cfg *RunCfg) {
 	st := NewStats("C07", cfg)
-	st.Rule = "redial: a client peer with RedialTimes=3 dials a listener; timelines over {dial another session, the server cuts every connection (the sessions redial from new local ports and get new default ids), the listener goes away and the connections are cut (redial fails), SetID to a custom and possibly colliding id, Close, call}; after every step the index is compared with the sessions in status ok under their current and former ids; no model prediction (the machine has no redial); distinct by script"
+	st.Rule = "redial: a client peer with RedialTimes=3 dials a listener; timelines over {dial another session, the server cuts every connection (the sessions redial from new local ports and get new default ids), the listener goes away and the connections are cut (redial fails), SetID to a custom and possibly colliding id, Close, call, veto (from now on the PostDial hook of every redial returns a non-OK status or panics; a cut follows), allow}; after every step the index is compared with the sessions in status ok under their current and former ids; no model prediction (the machine has no redial); distinct by script"
 	distinct := DistinctSet{}
 	scripts := redialScripts(cfg)
 	for i, sc := range scripts {
